@@ -73,8 +73,15 @@ struct Shm {
     char desc[16384];               // description flushed by the worker before it runs the code under test
 };
 
+// Generator version: draws added to a generator after replay files were committed are guarded by
+// `c.gver >= N`, so that an old replay file (no "genver" line = version 1) still decodes to the
+// case it was saved for.  New cases are always generated (and saved) at PBT_GEN_VERSION.
+#define PBT_GEN_VERSION 2
+static int g_gver = PBT_GEN_VERSION;
+
 struct Ctx {
     enum Mode { RANDOM, REPLAY, BYTES } mode = RANDOM;
+    int gver = g_gver;
     Rng rng;
     const std::vector<uint64_t> *rep = nullptr; size_t pos = 0;
     const uint8_t *fb = nullptr; size_t fn = 0, fpos = 0;
@@ -391,7 +398,7 @@ struct Runner {
         char name[64]; snprintf(name, sizeof name, "%016llx.case", (unsigned long long)fnv1a(o.rec.data(), o.rec.size() * 8));
         std::string path = dir + "/" + name;
         FILE *f = fopen(path.c_str(), "w"); if (!f) return path;
-        fprintf(f, "property %s\nsize %d\nsig %s\nfound %s\n", opt.id.c_str(), size, o.sig.c_str(), how.c_str());
+        fprintf(f, "property %s\ngenver %d\nsize %d\nsig %s\nfound %s\n", opt.id.c_str(), g_gver, size, o.sig.c_str(), how.c_str());
         std::string m = o.msg; for (auto &ch : m) if (ch == '\n') ch = ' ';
         if (m.size() > 3000) m.resize(3000);
         fprintf(f, "msg %s\n", m.c_str());
@@ -410,15 +417,17 @@ struct Runner {
         FILE *f = fopen(path.c_str(), "r"); if (!f) return false;
         std::string all; char tmp[65536]; size_t r; while ((r = fread(tmp, 1, sizeof tmp, f)) > 0) all.append(tmp, r);
         fclose(f);
-        std::istringstream is(all); std::string line; bool got = false; size = 50;
+        std::istringstream is(all); std::string line; bool got = false; size = 50; int ver = 1;
         while (std::getline(is, line)) {
             if (line.compare(0, 5, "size ") == 0) size = atoi(line.c_str() + 5);
+            else if (line.compare(0, 7, "genver ") == 0) ver = atoi(line.c_str() + 7);
             else if (line.compare(0, 4, "sig ") == 0) sig = line.substr(4);
             else if (line.compare(0, 7, "before ") == 0) { std::istringstream ls(line.substr(7)); int sz = 50; ls >> sz; std::vector<uint64_t> b; unsigned long long v; while (ls >> v) b.push_back(v); if (before) before->push_back({b, sz}); }
             else if (line.compare(0, 7, "choices") == 0) {
                 std::istringstream ls(line.substr(7)); unsigned long long v; while (ls >> v) seq.push_back(v); got = true;
             }
         }
+        g_gver = ver;        // one replay file per process: everything decoded from here on uses the file's generator version
         return got;
     }
 
